@@ -138,7 +138,19 @@ class GeluPlugin(PrimitiveLeafPlugin):
         ) -> Callable[..., ArrayLike]:
             if orig is None:
                 raise RuntimeError("Original jax.nn.gelu not found")
-            return lambda *args, **kwargs: cls._PRIM.bind(*args, **kwargs)
+
+            def _patched(x: ArrayLike, *args: object, **kwargs: object) -> ArrayLike:
+                # jax.nn.gelu(x, approximate) also takes its parameter positionally;
+                # only ``x`` is an operand of the primitive.
+                if len(args) > 1 or (args and "approximate" in kwargs):
+                    raise TypeError(
+                        "gelu() takes x and an optional approximate argument"
+                    )
+                if args:
+                    kwargs["approximate"] = args[0]
+                return cls._PRIM.bind(x, **kwargs)
+
+            return _patched
 
         return [
             AssignSpec("jax.nn", "gelu_p", cls._PRIM, delete_if_missing=True),
